@@ -48,6 +48,11 @@ func checkSem(c *core.Ctx, sp semProp) error {
 	}
 	nq, nd := tierSizes(c)
 	u := SelectUniverse(all, c.Quick(), c.Seed, nq, nd)
+	meth, err := EnumerateMethodTypes(c, 2)
+	if err != nil {
+		return err
+	}
+	u.AddMethodTypes(meth, c.Quick(), c.Seed, 12)
 	o := PkgOpts{Calls: sp.calls}
 	r, err := ExportOnly(c, "main", u.IDs, u.Types)
 	if err != nil {
@@ -143,6 +148,7 @@ func checkSem(c *core.Ctx, sp semProp) error {
 	c.Set("types_core", u.Core)
 	c.Set("types_sampled_depth2", u.Sampled)
 	c.Set("types_random_depth3", u.Random)
+	c.Set("types_with_user_methods", u.Method)
 	c.Set("skipped_not_generated", len(r.Build.Skipped))
 	c.Set("skipped_reasons", r.Build.Kinds)
 	c.Set("goderive_runs", r.Build.Goderive+sh.Build.Goderive)
@@ -164,7 +170,7 @@ func checkSem(c *core.Ctx, sp semProp) error {
 	}
 	c.Assume("TLC, the Go compiler and runtime, reflect/unsafe materialisation in the driver (self-checked: materialise->project is the identity on every pool value in every run)")
 	c.Assume("leaf tokens: Go's == and < on the concrete literals agree with the TLA+ rank table (checked at start-up with plain Go comparisons)")
-	c.Assume("NaN and cyclic values are outside the statement; user-declared Equal/Compare/Hash methods are not part of this universe")
+	c.Assume("NaN and cyclic values are outside the statement; user-declared methods: one fixture family (Equal/Compare/Hash look at the first field only; every receiver x argument form), as components only")
 	return nil
 }
 
